@@ -369,3 +369,36 @@ Theorem C08_del_reports_failure_after_change_refuted :
   end.
 Proof. exact del_reports_failure_after_change_refuted. Qed.
 Print Assumptions C08_del_reports_failure_after_change_refuted.
+
+(* ================= the tokener's temporary "C" numeric locale (json_tokener_parse_ex) *)
+(* duplocale and newlocale as requests, every allocator behaviour: on "memory" exactly the
+   blocks that were live are live — the copy, if made, was released *)
+Theorem C08_locale_setup_clean : forall o s,
+  op_fault_clean same_live s (fun s' l => live s' = l :: live s) (res_out (locale_setup o s)).
+Proof. exact locale_setup_clean. Qed.
+Print Assumptions C08_locale_setup_clean.
+
+(* set-up, any parse in between that leaves the temporary locale alone, tear-down: the locale
+   object is released exactly once *)
+Theorem C08_parse_bracket_clean : forall o body s,
+  (forall l s1, live s1 = l :: live s -> exists rest, live (body s1) = l :: rest) ->
+  match parse_bracket o body s with
+  | Ok _ s' => exists l s1, locale_setup o s = Ok l s1 /\ live (body s1) = l :: live s'
+  | Fail s' => live s' = live s
+  | UB => False
+  end.
+Proof. exact parse_bracket_clean. Qed.
+Print Assumptions C08_parse_bracket_clean.
+
+(* negative control (a helper that trusts newlocale to take the copy over also when it fails)
+   and non-vacuity *)
+Theorem C08_locale_copy_leak_refuted :
+  locale_setup_trusting (single_fault 11) (mkast 10 [3%nat]) = Fail (mkast 12 [10; 3]%nat) /\
+  ~ op_fault_clean same_live (mkast 10 [3%nat]) (fun _ _ => True)
+      (res_out (locale_setup_trusting (single_fault 11) (mkast 10 [3%nat]))) /\
+  locale_setup (single_fault 11) (mkast 10 [3%nat]) = Fail (mkast 12 [3%nat]) /\
+  locale_setup (single_fault 10) (mkast 10 [3%nat]) = Fail (mkast 11 [3%nat]) /\
+  locale_setup no_fault (mkast 10 [3%nat]) = Ok 10%nat (mkast 12 [10; 3]%nat) /\
+  parse_bracket no_fault (fun s => s) (mkast 10 [3%nat]) = Ok tt (mkast 12 [3%nat]).
+Proof. exact locale_copy_leak_refuted. Qed.
+Print Assumptions C08_locale_copy_leak_refuted.
